@@ -1272,4 +1272,29 @@ theorem callStream_lossless (P : Params) (hl : P.lossless = true) :
     have h2 := ih (fun e he => hlos e (by simp [callEnts, he]))
     simp [callStream, inputBytes, tarStream, h1, lossTail, hl, h2]
 
+
+/-- `content(name)`: the data of the regular file entry called `name` that reaches the output. -/
+def contentOf (ents : List TarEnt) (name : String) : Option Bytes :=
+  (ents.find? (fun e => !e.isToc && (e.typ == Kind.reg && e.name == name))).map (·.data)
+
+/-- No two regular files of the (kept) entries share a name - what `importTar`'s "last duplicate
+wins" establishes for `Build`. -/
+def UniqueRegNames (ents : List TarEnt) : Prop :=
+  ∀ a ∈ ents, ∀ b ∈ ents, a.isToc = false → b.isToc = false → a.typ = .reg → b.typ = .reg →
+    a.name = b.name → a = b
+
+theorem contentOf_eq {ents : List TarEnt} {e : TarEnt} (hu : UniqueRegNames ents) (he : e ∈ ents)
+    (h1 : e.isToc = false) (h2 : e.typ = .reg) : contentOf ents e.name = some e.data := by
+  unfold contentOf
+  cases h : ents.find? (fun a => !a.isToc && (a.typ == Kind.reg && a.name == e.name)) with
+  | none =>
+    have := List.find?_eq_none.mp h e he
+    simp [h1, h2] at this
+  | some e' =>
+    have hp := List.find?_some h
+    have hm := List.mem_of_find?_eq_some h
+    simp at hp
+    have : e' = e := hu e' hm e he hp.1 h1 hp.2.1 h2 hp.2.2
+    simp [this]
+
 end SV.Writer
